@@ -113,4 +113,25 @@ PLANS = {
                      'c17_cookieless_dropped', 'c17_never_cookie_server_served', 'c17_wrong_client_dropped', 'c17_valid_cookie_accept', 'c17_source_address_changed']),
         ],
     },
+    'C14': {
+        'level': 'fault_enumeration',
+        'rule': 'scenario family (channel set-up per configuration; each of the ten request kinds answered, answered NXDOMAIN and timed out, over UDP and TCP; cache hit; TC upgrade; failover; set_servers; reinit; cancel; destroy with requests outstanding; dup; save_options); the clean run counts N allocations through ares_library_init_mem, then every n in 1..N is executed with only the n-th allocation failing; distinct = distinct vectors of request statuses',
+        'assumptions': ['one failing allocation per run (pairs are outside the claim)', 'allocations made before the channel exists (none) and inside the event thread (not used here) are not covered',
+                        'after the fault a fresh query must succeed on the same channel unless the scenario removed all servers'] + ASSUME[:2],
+        'targets': T, 'deadline': {'quick': 420, 'thorough': 2400},
+        'jobs': [
+            {'name': 'alloc', 'bin': 'exa', 'family': 'alloc', 'shards': 16, 'args': {'quick': {}, 'thorough': {}}, 'resume': 'index', 'max_restarts': 60,
+             'require_witnesses': {'*': ['fault_hit', 'init_reported_failure']}, 'min_outcomes': 2},
+        ],
+    },
+    'C20': {
+        'level': 'model_checking',
+        'rule': 'for 1..3 queries queued on one TCP connection (USEVC and UDP->TC->TCP upgrade, with/without deferred-write notification, immediate/in-progress connect, all-at-once or staggered issue) every split of the server\'s reply byte stream into 2 and 3 reads plus the one-byte-per-read plan, and every "accept k bytes then would-block" / short-write pattern of the request stream for every k plus the one-byte-per-send and alternating plans, is executed and compared with the unsegmented run of the same scenario; states = plans, transitions = application I/O rounds',
+        'assumptions': ASSUME[:2] + ['the server answers only once all queued frames have arrived completely, in order'],
+        'targets': T, 'deadline': {'quick': 300, 'thorough': 1800},
+        'jobs': [
+            {'name': 'stream', 'bin': 'exa', 'family': 'stream', 'shards': 16, 'args': {'quick': {}, 'thorough': {}}, 'resume': 'index',
+             'require_witnesses': {'*': ['plan_wouldblock', 'short_write', 'pending_write_cb', 'tc_retried_over_tcp', 'igntc_delivered', 'zero_length_datagram']}, 'min_outcomes': 2},
+        ],
+    },
 }
